@@ -5,8 +5,10 @@ NAME_POOL = [
     "ophelia", "claudius", "x", "dagger", "oph-elia", "a.b", "c+d", "o'neil", "two words", "ünï",
     "x_rig_WORK", "v001", "sq010", "sh0010", "ma", "char", "s", "a", "A", "hamlet", "node1", "Ophelia",
     "a-b", "a_b", "0", "w", "model",
+    "cafe\u0301", "\u212bngstrom", "\U00020bb7\u91ce", "{x}", "{}", "a}b", "{0}",       # non-NFC, non-BMP; braces (str.format syntax)
 ]
-SAFE_NAME_POOL = ["ophelia", "claudius", "x", "dagger", "oph-elia", "a.b", "c+d", "a-b", "yorick", "skull", "b", "node1"]
+SAFE_NAME_POOL = ["ophelia", "claudius", "x", "dagger", "oph-elia", "a.b", "c+d", "a-b", "yorick", "skull", "b", "node1",
+                  "cafe\u0301", "Laertes", "\U00020bb7\u91ce"]
 JUNK_SEGMENTS = ["", " ", "junk", "JUNK", "v1", "v0001", "sq1", "sh10", "hamlet ", " hamlet", "Hamlet", "hamle", "hamlett",
                  "a ", "as", "а", "w p", "wp", "ma.", ".ma", "m", "**", "*,*", "<", ">>", "*x", "x*", "a,s", "ma,mb",
                  "\t", "\n", "a\n", "\nhamlet", "ham\0let", "x" * 300, "v١٢٣", "{project}", "(a)", "a|s", ".*", "[^/]*",
